@@ -12,7 +12,7 @@ TRUSTED = [
 ]
 ASSUME = [
     'a source next() call returns (one step)',
-    'deadlock-freedom is a theorem for fifo_stream / Parmapper with sources raising ordinary exceptions (C05_fifo_no_deadlock); refuted for buffer(1)/(2) and BaseException sources; for buffer(n >= 3) it rests on the explored schedules (every explored run is classified); see Props/C05.v',
+    'deadlock-freedom is a theorem for fifo_stream / Parmapper with sources raising ordinary exceptions (C05_fifo_no_deadlock); and for buffer(n >= 3) (C05_buffer3_no_deadlock); refuted for buffer(1)/(2) and BaseException sources; see Props/C05.v',
     'AsyncBuffer / SyncIter / ParmapperAsync and process executors are not scheduled by this check',
 ]
 
